@@ -436,6 +436,8 @@ def run(chk):
     TR.time_decoding(chk, src)
     chk.rule("imag-copy", "evolution schemes work on a fresh object in both time modes", 4)
     imag_copy_rule(chk, src)
+    from .chain_rules import tdvp_bookkeeping_rule
+    tdvp_bookkeeping_rule(chk, src, rule_input="imag-copy")       # the same clause decided by the abstract runs of the tangent-space schemes (events: no store into the input)
     chk.rule("thermal-hamiltonian", "both thermal propagation paths and the energy bookkeeping use the Hamiltonian the job was given", 3)
     thermal_hamiltonian_rule(chk, src)
     chk.rule("solver-sibling", "abstract runs of the tangent-space schemes with both local solvers in imaginary time: call by call the same real exponent -tau/2 (-tau) H_k", 6)
